@@ -243,3 +243,14 @@ def owner_closure(repo, cls_name, designated):
                 allowed.add(name)
                 changed = True
     return allowed
+
+
+def callee_qual(callee):
+    """What a call resolves to, independent of the names of the variables it goes through: 'Class.method' / 'function' for repository
+    functions, 'class:Name' for a constructor call, None otherwise."""
+    from sa.patheval import FuncRef, ClassRef
+    if isinstance(callee, FuncRef):
+        return callee.fi.qualname
+    if isinstance(callee, ClassRef):
+        return 'class:' + callee.name
+    return None
